@@ -242,6 +242,40 @@ def reference_outcome(cfg):
         specrun.quiet()
 
 
+def status_pickle_runs(cfg):
+    """an auto_search that was asked for status updates (at an interval that never comes) and is cut off by its time limit: what a
+    call is asked to report must not become part of what is saved - the restored searcher equals the interrupted one"""
+    problems = []
+    for limit in (0, 3):
+        root, pack, db = specrun.build(cfg)
+        s = CombinatorialSpecificationSearcher(root, pack, ruledb=db, expand_verified=cfg["expand_verified"])
+        specrun.quiet()
+        real = css_mod.time
+        css_mod.time = LimitClock()
+        st = random.getstate()
+        random.seed(cfg["seed"])
+        try:
+            for interrupted in (1, 2):
+                try:
+                    s.auto_search(max_expansion_time=limit, perc=cfg["perc"], status_update=10 ** 9)
+                    break
+                except ExceededMaxtimeError:
+                    pass
+                except SpecificationNotFound:
+                    break
+                if not pickle.loads(pickle.dumps(s)) == s:
+                    problems.append(("restored-searcher-not-equal-after-interrupted-auto_search:" + type(s.ruledb).__name__,
+                                     f"limit={limit}, status_update given, interruption {interrupted}"))
+                    break
+        except Exception as exc:  # noqa: BLE001
+            problems.append(("NOTE", f"status/pickle run: {specrun.exc_info(exc)[:200]}"))
+        finally:
+            css_mod.time = real
+            random.setstate(st)
+            specrun.quiet()
+    return problems
+
+
 def time_limit_runs(cfg, limits):
     problems, runs = [], 0
     ref = reference_outcome(cfg)
@@ -345,6 +379,7 @@ def worker(args):
         out["points"] = pts
         if kind == "word":
             probs, runs = time_limit_runs(spec, [0, 1, 2, 3, 5, 8, 13, 30] if tier == "quick" else list(range(0, 40)))
+            probs = probs + status_pickle_runs(spec)
             for sig, d in probs:
                 if sig == "LINE":
                     out["lines"].append(d)
